@@ -6,6 +6,8 @@ import GfsModel.FrameSet
 import GfsSpec.Enum
 import GfsSpec.Grammar
 import GfsProofs.CompressLemmas
+import GfsGen.Facts
+import GfsModel.ExpectedSrc
 
 namespace Gfs.Props.C09
 open Gfs Gfs.Spec Gfs.Proofs
@@ -42,5 +44,10 @@ example : ∃ fs, FrameSet.parse (framesToFrameRange [10, 8, 6] false 0) = .ok f
     simp at ha hb
     rcases ha with rfl | rfl | rfl <;> rcases hb with rfl | rfl | rfl <;>
       (unfold Fits minInt64 maxInt64; omega))
+
+/-- the declarations of /repo this property's model and specification were written from are,
+    on this run, the ones the model was last aligned with (digest of their comment- and
+    layout-insensitive fingerprints, re-extracted by tools/gofacts) -/
+theorem C09_source : Gfs.Gen.sourceDigestC09 = Gfs.expectedSourceDigestC09 := by decide
 
 end Gfs.Props.C09
